@@ -112,8 +112,27 @@ func VC01_Relay() {
 	if tcp {
 		proto, viaProto, trParam = "tcp", "TCP", ";transport=tcp"
 	}
+	// R = 1 (configurations with more extension headers): one listener configuration instead of eight
+	tcpListener, must, keep := false, false, false
+	if rt.Param("R") == 0 {
+		tcpListener, must, keep = rt.Bool("tcp-listener"), rt.Bool("must-record-route"), rt.Bool("keep-next-hop")
+	}
 	w := newWorld(worldOpts{nBackends: 1, routes: [][3]string{{proto, "static.example.org", "10.0.3.3:5070"}},
-		tcpListener: rt.Bool("tcp-listener"), mustRecordRoute: rt.Bool("must-record-route"), keepNextHop: rt.Bool("keep-next-hop")})
+		tcpListener: tcpListener, mustRecordRoute: must, keepNextHop: keep})
+	// a TCP next hop whose first connection breaks in the middle of the write: the relayed bytes must
+	// still arrive unchanged (on the connection that replaces it)
+	if tcp && rt.Param("R") == 0 && !tcpListener && !must && !keep && rt.Bool("first-connection-breaks") {
+		k := rt.Int("accepted-before-breaking", 0, 60)
+		first := true
+		fakenet.DialHook = func(network, address string) (fakenet.Conn, error) {
+			c := fakenet.NewTCPConn(wListenAddr+":40000", address)
+			if first {
+				first = false
+				c.FailWrites, c.FailAccept = 1, k
+			}
+			return c, nil
+		}
+	}
 	// mandatory headers are part of "everything the proxy does not own"
 	var hs []gHeader
 	add := func(name, value string) {
